@@ -27,6 +27,12 @@ func TestC19(t *testing.T) {
 		extra := genAmount(t, "extraSupply", 30, false)
 		FundAccount(w.App, ctx, KeyAcc(6).Addr, sdk.NewCoins(sdk.NewCoin(cfg.Denom, sdk.NewIntFromBigInt(extra))))
 
+		// one case in four: the minter's module account already holds coins of the mint denomination (a genesis file may
+		// credit any address; nobody can send there later, the address is blocked)
+		minterFunded := rapid.IntRange(0, 3).Draw(t, "minterAccountFunded") == 0
+		if minterFunded {
+			FundModule(w.App, ctx, mintertypes.ModuleName, sdk.NewCoins(sdk.NewCoin(cfg.Denom, sdk.NewIntFromBigInt(genAmount(t, "minterAccountFunds", 24, false)))))
+		}
 		unbonding := false
 		if rapid.IntRange(0, 2).Draw(t, "unbonding") == 0 {
 			// part of the supply sits in the staking module's not-bonded pool (an unbonding delegation)
@@ -72,6 +78,9 @@ func TestC19(t *testing.T) {
 		classes := []string{"kind_" + p.Kind.String()}
 		if rolledBack {
 			classes = append(classes, "schedule_update_executed_and_rolled_back")
+		}
+		if minterFunded {
+			classes = append(classes, "minter_module_account_holds_coins")
 		}
 		if unbonding {
 			classes = append(classes, "coins_in_the_not_bonded_pool")
